@@ -1635,7 +1635,12 @@ class Image:
         """
         # Make sure the parent directory exists
         Path(path).parent.mkdir(parents=True, exist_ok=True)
-        np.savez(str(Path(path)), array=self.img, metadata=self.metadata())
+        np.savez(
+            str(Path(path)),
+            array=self.img,
+            metadata=self.metadata(),
+            kind=type(self).__name__,
+        )
         if verbose:
             print(f"Image stored under {path}")
 
